@@ -19,6 +19,10 @@ and has a determinism theorem over every permutation of its inputs (Theorems.lea
                                (root namespace ++ proxy namespace, sort.Slice)                        op `ef`
   P5 `trafficExtensions`       initTrafficExtensions (sortConfigByCreationTime) +
                                TrafficExtensionsByListenerInfo + sortByPriority                      op `te`
+  P6 `mergedFor`               setDestinationRules: sortConfigBySelectorAndCreationTime, then
+                               mergeDestinationRule one rule at a time (subsets first-wins by name, the
+                               first top-level traffic policy is kept, `from` in merge order); rules
+                               without workloadSelector and with equal exportTo                       op `drm`
 -/
 namespace IstioModel.C17
 
@@ -84,6 +88,17 @@ def claimVips : List VSvc → List String → List (String × Bool)
 /-- `BuildSidecarVirtualHostWrapper` (as repaired by C17-4) on an enumeration of the `serviceRegistry`
     map: the services without a VirtualService are visited in hostname order. -/
 def vipOwners (enum : List VSvc) : List (String × Bool) := claimVips (isort vsvcLess enum) []
+
+/-- Specification side of P2: the hostname of the first service of a list that has address `v`. -/
+def firstClaimant (v : String) : List VSvc → Option String
+  | [] => none
+  | s :: r => if s.vip = v then some s.host else firstClaimant v r
+
+/-- Specification side of P2, what `claimVips` computes said without the accumulator: a virtual host keeps its
+    service's address iff the address is not empty, was not claimed before the list started (`c`), and the
+    service is the first of the list with that address. -/
+def keepsVip (c : List String) (l : List VSvc) (s : VSvc) : Bool :=
+  decide (s.vip ≠ "") && !c.contains s.vip && (firstClaimant s.vip l == some s.host)
 
 /-- The `less` of `sort.SliceStable(services, ...)` in buildSidecarOutboundVirtualHosts: `<=`, not `<`. -/
 def hostLeLess (a b : String) : Bool := decide (a ≤ b)
@@ -161,5 +176,67 @@ def trafficExtensions (root proxyNs : String) (listing : List TE) (phase : Nat) 
   let sorted := isort (ltOf teCmp) listing
   let nss := if proxyNs = root then [proxyNs] else [proxyNs, root]
   isort tePrioLess ((nss.flatMap (fun ns => sorted.filter (fun t => t.ns = ns))).filter (fun t => t.phase = phase))
+
+/-! ### P6: DestinationRule listing -> the merged rule of one host (destination_rule.go) -/
+
+/-- A DestinationRule without workloadSelector and without exportTo: the comparator key (`cfg`, `sel = false`),
+    the host, the names of its subsets, its top-level traffic policy ("" = none). -/
+structure DRule where
+  cfg     : Cfg
+  host    : String
+  subsets : List String
+  policy  : String
+  deriving DecidableEq, Repr, Inhabited
+
+/-- `ConsolidatedDestRule`: `from` (ids, in merge order), the subsets with the id of the rule each came
+    from, the top-level traffic policy. -/
+structure MergedDR where
+  src     : List Nat
+  subsets : List (String × Nat)
+  policy  : String
+  deriving DecidableEq, Repr, Inhabited
+
+/-- One call of `mergeDestinationRule` for a host that has at most one consolidated entry: the first rule is
+    taken as it is (`ConvertConsolidatedDestRule`); a later rule adds the subsets whose name the merged rule
+    does not have yet (`existingSubset` is computed before the loop) and gives its traffic policy only if the
+    merged rule has none. -/
+def mergeStep (m : Option MergedDR) (d : DRule) : Option MergedDR :=
+  match m with
+  | none => some { src := [d.cfg.id], subsets := d.subsets.map (fun s => (s, d.cfg.id)), policy := d.policy }
+  | some m =>
+    some { src := m.src ++ [d.cfg.id]
+           subsets := m.subsets ++ ((d.subsets.filter (fun s => !(m.subsets.map (·.1)).contains s)).map (fun s => (s, d.cfg.id)))
+           policy := if m.policy = "" then d.policy else m.policy }
+
+def mergeFold (l : List DRule) : Option MergedDR := l.foldl mergeStep none
+
+/-- `sortConfigBySelectorAndCreationTime` reads the `config.Config` of the rule only. -/
+def drRuleCmp (a b : DRule) : Ordering := drCmp a.cfg b.cfg
+
+def drLess (a b : DRule) : Bool := ltOf drRuleCmp a b
+
+/-- The rules of one namespace for one host, in the order `setDestinationRules` merges them. -/
+def mergeGroup (ns host : String) (listing : List DRule) : List DRule :=
+  (isort drLess listing).filter (fun d => d.cfg.ns = ns ∧ d.host = host)
+
+/-- Specification side of P6: the first non-empty traffic policy of a list of rules. -/
+def firstPolicy : List DRule → String
+  | [] => ""
+  | d :: r => if d.policy = "" then firstPolicy r else d.policy
+
+/-- Specification side of P6: the id of the first rule that has a subset called `s`. -/
+def firstWithSubset (s : String) : List DRule → Option Nat
+  | [] => none
+  | d :: r => if d.subsets.contains s then some d.cfg.id else firstWithSubset s r
+
+/-- The rule a subset name resolves to in a list of (name, id of the rule it came from): the first entry
+    (what `for _, subset := range rule.Subsets` finds first). -/
+def lookupOwner (s : String) : List (String × Nat) → Option Nat
+  | [] => none
+  | e :: r => if e.1 = s then some e.2 else lookupOwner s r
+
+/-- `setDestinationRules` on a listing of the store, read at `namespaceLocal[ns].destRules[host]`. -/
+def mergedFor (ns host : String) (listing : List DRule) : Option MergedDR :=
+  mergeFold (mergeGroup ns host listing)
 
 end IstioModel.C17
